@@ -850,6 +850,15 @@ func (b *BlockWise[C]) processReceivedMessage(w *responsewriter.ResponseWriter[C
 	sendMessage.SetToken(token)
 	if blockType == message.Block2 {
 		num = payloadSize / szx.Size()
+		if num == 0 && sentRequest.Code() != codes.GET && sentRequest.Code() != codes.DELETE {
+			// The response would have to be fetched again from its first block (nothing usable has been
+			// reassembled: a block of another transfer arrived or the ETag changed). The request for a
+			// block carries no body, and a request for block 0 is a new request for a server that no
+			// longer holds the response: only GET and DELETE can be repeated this way.
+			b.cc.ReleaseMessage(sendMessage)
+			err = fmt.Errorf("cannot restart blockwise response of request(%v) from first block", sentRequest.Code())
+			return err
+		}
 		sendMessage.ResetOptionsTo(sentRequest.Options())
 		sendMessage.SetCode(sentRequest.Code())
 		sendMessage.Remove(message.Observe)
